@@ -27,7 +27,8 @@ type ghostMapInfo struct {
 	name  string
 	heap  string
 	sort  Sort
-	kind  string // shared, owned, once
+	kind  string // shared, owned, once, local, by
+	token string // kind by: name of the owned map whose holder may change the entry
 	zero  string
 }
 
@@ -78,6 +79,12 @@ func (c *VCtx) ghostMaps() []*ghostMapInfo {
 					ty = strings.TrimSpace(strings.TrimSuffix(ty, " "+k))
 				}
 			}
+			token := ""
+			if i := strings.Index(ty, " by "); i > 0 {
+				// "K -> V by <owned map>": an entry may be changed only by the holder of the token for the same key
+				kind, token = "by", strings.TrimSpace(ty[i+4:])
+				ty = strings.TrimSpace(ty[:i])
+			}
 			k, v, ok := strings.Cut(ty, "->")
 			if !ok {
 				unsup("ghostmap %s needs K -> V", g.Name)
@@ -94,7 +101,7 @@ func (c *VCtx) ghostMaps() []*ghostMapInfo {
 			case SAny:
 				zero = "zero_Any"
 			}
-			gi := &ghostMapInfo{pkg: pkg, name: g.Name, heap: "G:" + shortPkg(pkg) + "." + g.Name, sort: ArrSort(ks, vs), kind: kind, zero: zero}
+			gi := &ghostMapInfo{pkg: pkg, name: g.Name, heap: "G:" + shortPkg(pkg) + "." + g.Name, sort: ArrSort(ks, vs), kind: kind, zero: zero, token: token}
 			c.gmaps = append(c.gmaps, gi)
 			c.heapSorts[gi.heap] = gi.sort
 		}
@@ -130,7 +137,7 @@ func (c *VCtx) sharedHavoc(st *State, before *State) {
 	if c.top == nil {
 		return
 	}
-	if len(c.globalClauses()) == 0 && len(c.ghostMaps()) == 0 && !c.usesAtomics && !c.hasVolatile() {
+	if len(c.globalClauses()) == 0 && len(c.ghostMaps()) == 0 && !c.usesAtomics && !c.hasVolatile() && len(c.pubCells) == 0 {
 		return
 	}
 	// atomic cells: everything except the local ones
@@ -194,6 +201,22 @@ func (c *VCtx) sharedHavoc(st *State, before *State) {
 			}
 		}
 	}
+	// captured variables under the publication discipline: written by whoever holds the token
+	if len(c.pubCells) > 0 {
+		var ks []string
+		for k := range c.pubCells {
+			ks = append(ks, k)
+		}
+		sort.Strings(ks)
+		for _, k := range ks {
+			l := c.pubCells[k]
+			h := c.heap(st, l.Heap, ArrSort(SRef, l.Sort))
+			nv := c.fresh("pubv", l.Sort)
+			c.wfValue(st, nv)
+			st.heaps[l.Heap] = c.name("h", Store(h, l.Base, nv))
+			delete(st.cells, l.Base.S)
+		}
+	}
 	// ghost maps
 	for _, g := range c.ghostMaps() {
 		if g.kind == "local" {
@@ -201,6 +224,7 @@ func (c *VCtx) sharedHavoc(st *State, before *State) {
 		}
 		old := c.heap(st, g.heap, g.sort)
 		nw := c.fresh("H!"+g.heap, g.sort)
+		c.heapWellFormed(st, g.heap, nw)
 		ks, _ := arrParts(g.sort)
 		switch g.kind {
 		case "owned":
@@ -208,13 +232,17 @@ func (c *VCtx) sharedHavoc(st *State, before *State) {
 			c.linkFact(T(SBool, fmt.Sprintf("(forall ((k %s)) (! (= (= (select %s k) me) (= (select %s k) me)) :pattern ((select %s k))))", ks, old.S, nw.S, nw.S)))
 		case "once":
 			c.linkFact(T(SBool, fmt.Sprintf("(forall ((k %s)) (! (=> (not (= (select %s k) %s)) (= (select %s k) (select %s k))) :pattern ((select %s k)) :pattern ((select %s k))))", ks, old.S, g.zero, nw.S, old.S, nw.S, old.S)))
+		case "by":
+			// entries whose token this invocation holds cannot have been changed by anybody else
+			if tk := c.ghostMapByName(g.token); tk != nil {
+				tokOld := c.heap(before, tk.heap, tk.sort)
+				c.linkFact(T(SBool, fmt.Sprintf("(forall ((k %s)) (! (=> (= (select %s k) me) (= (select %s k) (select %s k))) :pattern ((select %s k))))", ks, tokOld.S, nw.S, old.S, nw.S)))
+			}
 		}
-		// nobody else can make a ghost map refer to an object that this call has not published yet
-		if _, vs := arrParts(g.sort); vs == SRef {
-			for _, r := range c.freshObjs {
-				if !c.isPublished(r) {
-					c.linkFact(T(SBool, fmt.Sprintf("(forall ((k %s)) (! (=> (= (select %s k) %s) (= (select %s k) %s)) :pattern ((select %s k))))", ks, nw.S, r.S, old.S, r.S, nw.S)))
-				}
+		// nobody else can make a ghost map refer to something that this call has created and not published yet
+		if _, vs := arrParts(g.sort); vs == SRef && g.kind != "owned" {
+			if mine := c.mineSet(); mine != nil {
+				c.linkFact(T(SBool, fmt.Sprintf("(forall ((k %s)) (! (=> (select %s (select %s k)) (= (select %s k) (select %s k))) :pattern ((select %s k))))", ks, mine.S, nw.S, nw.S, old.S, nw.S)))
 			}
 		}
 		// nobody else knows the cells that are still local to this call
@@ -483,6 +511,35 @@ func (c *VCtx) freshObjectGhost(st *State, r *Term, t types.Type) {
 			}
 		}
 	}
+}
+
+// mineSet: a set containing (at least) the objects, channels and variables this invocation has created and not yet
+// made reachable for anybody else (recomputed at every observation point).
+func (c *VCtx) mineSet() *Term {
+	if c.mineCache != nil && c.mineCacheN == len(c.freshKeys)+len(c.published)+len(c.freshObjs) {
+		return c.mineCache
+	}
+	var priv []*Term
+	for _, r := range c.freshKeys {
+		if !c.isPublished(r) {
+			priv = append(priv, r)
+		}
+	}
+	for _, r := range c.freshObjs {
+		// (includes the monitor objects embedded in a new object)
+		if !c.isPublished(r) {
+			priv = append(priv, r)
+		}
+	}
+	if len(priv) == 0 {
+		return nil
+	}
+	m := c.fresh("mine", ArrSort(SRef, SBool))
+	for _, r := range priv {
+		c.fact(Select(m, r))
+	}
+	c.mineCache, c.mineCacheN = m, len(c.freshKeys)+len(c.published)+len(c.freshObjs)
+	return m
 }
 
 func (c *VCtx) hasVolatile() bool {
